@@ -121,6 +121,10 @@ fn c11_listener_counts_ended_workers() {
         kani::assert(after as u128 + (if ended { 1 } else { 0 }) == running as u128 + CREATED as u128, "C11.running_is_live_workers_after_a_state_report");
         kani::assert(after <= max, "C11.running_never_exceeds_the_maximum");
         kani::assert(CREATED <= 1, "C11.at_most_one_replacement_per_report");
+        // (C12, accepted work is not stranded) a worker that ends abnormally while tasks are queued is replaced
+        // whenever a replacement can be created: the ended worker is counted out first, so there is room
+        let abnormal = matches!(new_state, CoroutineState::Cancelled | CoroutineState::Error(_));
+        if abnormal && !QUEUE_EMPTY && !CREATE_FAILS { kani::assert(CREATED == 1, "C12.worker_lost_with_work_queued_is_replaced"); }
         kani::cover!(ended && CREATED == 1, "C11.cover_worker_replaced");
         kani::cover!(ended && CREATED == 0 && after as u128 + 1 == running as u128, "C11.cover_worker_ended_without_replacement");
         kani::cover!(!ended && CREATED == 1, "C11.cover_pool_grows_on_suspend");
